@@ -16,6 +16,7 @@ package base
 
 import (
 	"sync"
+	"sync/atomic"
 
 	"github.com/pkg/errors"
 
@@ -35,6 +36,9 @@ type SentinelEntry struct {
 	sc *SlotChain
 
 	exitCtl sync.Once
+	// exited is set to 1 once the entry has exited; its context then belongs to the pool
+	// (or already to another entry) and must not be written through this entry any more.
+	exited uint32
 }
 
 func NewSentinelEntry(ctx *EntryContext, rw *ResourceWrapper, sc *SlotChain) *SentinelEntry {
@@ -51,13 +55,13 @@ func (e *SentinelEntry) WhenExit(exitHandler ExitHandler) {
 }
 
 func (e *SentinelEntry) SetError(err error) {
-	if e.ctx != nil {
+	if e.ctx != nil && atomic.LoadUint32(&e.exited) == 0 {
 		e.ctx.SetError(err)
 	}
 }
 
 func (e *SentinelEntry) SetPair(key, val interface{}) {
-	if e.ctx != nil {
+	if e.ctx != nil && atomic.LoadUint32(&e.exited) == 0 {
 		e.ctx.SetPair(key, val)
 	}
 }
@@ -92,14 +96,16 @@ func (e *SentinelEntry) Exit(exitOps ...ExitOption) {
 	if ctx == nil {
 		return
 	}
-	if options.err != nil {
-		ctx.SetError(options.err)
-	}
 	e.exitCtl.Do(func() {
+		// Only the first Exit may record its error: afterwards the context is recycled.
+		if options.err != nil {
+			ctx.SetError(options.err)
+		}
 		defer func() {
 			if err := recover(); err != nil {
 				logging.Error(errors.Errorf("%+v", err), "Sentinel internal panic in SentinelEntry.Exit()")
 			}
+			atomic.StoreUint32(&e.exited, 1)
 			if e.sc != nil {
 				e.sc.RefurbishContext(ctx)
 			}
